@@ -35,6 +35,18 @@ CLAIMS = {
         "Class-level abstraction: conditions on payloads are opaque and fork both ways; the bindable-class domain "
         "excludes internal kinds listed with reasons in sa/rules/common.py.",
     ),
+    "C04": (
+        "Decides the algebraic laws that are visible in the dispatch structure of can_assign: (R04.a) Never reaches no "
+        "direct rejection in any static-type receiver (abstract dispatch over Value classes with the Never singleton "
+        "as its own atom, following super()/self delegation; component checks are inductive); (R04.b) Any likewise "
+        "when exclude-any is off, with record_any_used() on the base accepting path; (R04.c) AnyValue accepts every "
+        "non-union operand; (R04.d) should_exclude_any() only occurs as a negated conjunct guarding an accepting "
+        "return (monotone); (R04.e/f) union-on-the-right is a for-all loop, union-on-the-left an exists loop. "
+        "Soundness for membership of the per-class rules and reflexivity are not decided.",
+        "abstract interpretation of can_assign over sets of Value classes with outcome classification",
+        "Results of component checks (X.can_assign(other)) are assumed by structural induction; extension checks on "
+        "AnnotatedValue and the TypeVar solver path are listed as not decided.",
+    ),
     "C10": (
         "Decides: (R10.1) no set/frozenset-typed value (typed from literals, constructors, set algebra, annotations "
         "of fields/parameters/returns, one inter-procedural step) reaches an order-observable construct (ordered "
